@@ -260,7 +260,7 @@ def runV (line : String) : String :=
           let s := r.x.s
           let dn := completionOrder s.log
           let recv := (List.range s.ntasks).map (showRecvV s nch)
-          let obs := s!"{" ".intercalate r.toks.reverse} | done={if dn.isEmpty then "-" else ".".intercalate (dn.map toString)} wc={wcStr r.x} recv={",".intercalate recv}"
+          let obs := s!"{" ".intercalate r.toks.reverse} | done={if dn.isEmpty then "-" else ".".intercalate (dn.map toString)} wc={wcStr r.x} recv={",".intercalate recv} vt={Rc.vlogDigest r.rc.vlog}"
           obs ++ "\t" ++ (match r.verdict with | some e => s!"FAIL:{e}" | none => "ok")
         | _, _ => "bad-case\t-"
       | _, _ => "bad-case\t-"
@@ -328,7 +328,8 @@ def runNObs : Nat → NState → List String → Option String → NState × Lis
           match nCheck s' with
           | some e => some s!"{e}@{toks'.length}"
           | none =>
-            if !nFifoB s s' then some s!"overtaken@{toks'.length}"
+            if !nFrozenB s' then some s!"lost-or-duplicated@{toks'.length}"
+            else if !nFifoB s s' then some s!"overtaken@{toks'.length}"
             else if !nLiveB s' then some s!"lost-wakeup@{toks'.length}" else none
       if s'.panicked then (s', toks'.reverse, v', "panic") else runNObs n s' toks' v'
 
@@ -342,7 +343,8 @@ def runN (rest : String) : String :=
     let v0 := if nStallBound s0 > maxSteps then some "budget-below-bound" else (nCheck s0).map fun e => s!"{e}@0"
     let (s, toks, v, how) := runNObs maxSteps s0 [] v0
     let dn := (List.range s.ntasks).filter fun t => s.log.contains (.exit t true)
-    let obs := s!"{" ".intercalate toks} | wc={s.queue.length} end={how} done={if dn.isEmpty then "-" else ".".intercalate (dn.map toString)}"
+    let act := (List.range s.ntasks).filter fun t => s.stack.contains t
+    let obs := s!"{" ".intercalate toks} | wc={s.queue.length} end={how} done={if dn.isEmpty then "-" else ".".intercalate (dn.map toString)} act={if act.isEmpty then "-" else ".".intercalate (act.map toString)}"
     obs ++ "\t" ++ (match v with | some e => s!"FAIL:{e}" | none => "ok")
 
 def runLine (line : String) : String :=
@@ -362,17 +364,17 @@ def runLine (line : String) : String :=
         let v0 := if stallBound s0 > maxSteps then some "budget-below-bound" else (checkB s0).map (fun e => s!"{e}@0")
         let (s, toks, compl, v, stalled) := runObs maxSteps s0 [] 0 v0
         let nch := ((scripts.flatMap id).map chanOfAction).foldl max 0
+        let rr := rcRun nch (maxSteps + 1) (Rc.rInit (m == "s") scripts roots) 0
         let v := match v with
           | some e => some e
           | none =>
-            let rr := rcRun nch (maxSteps + 1) (Rc.rInit (m == "s") scripts roots) 0
             match rr.1 with
             | some e => some e
             | none => if rr.2.s.log != s.log || rr.2.s.queue != s.queue then some "rc-run-differs" else none
         let rus := runUntilStalled maxSteps s0 0
         let dn := completionOrder s.log
         let recv := (List.range s.ntasks).map (showRecv s)
-        let obs := s!"{" ".intercalate toks} | done={if dn.isEmpty then "-" else ".".intercalate (dn.map toString)} compl={compl} end={if stalled then "stall" else "cut"} rus={if rus.2.2 then toString rus.2.1 else "-"} recv={",".intercalate recv} blocked={showBlocked s}"
+        let obs := s!"{" ".intercalate toks} | done={if dn.isEmpty then "-" else ".".intercalate (dn.map toString)} compl={compl} end={if stalled then "stall" else "cut"} rus={if rus.2.2 then toString rus.2.1 else "-"} recv={",".intercalate recv} blocked={showBlocked s} vt={Rc.vlogDigest rr.2.vlog}"
         obs ++ "\t" ++ (match v with | some e => s!"FAIL:{e}" | none => "ok")
       | _, _ => "bad-case\t-"
     | _ => "bad-case\t-"
